@@ -34,7 +34,7 @@ TRUSTED = [
 
 ARCH_X86 = C16.ARCH_X86
 ARCH_A64 = C16.ARCH_A64
-SLACK_LOOP = 0.3       # oversleeping of the last poll interval
+SLACK_LOOP = 0.5       # oversleeping of the last poll interval
 SLACK_WAIT = 1.5       # process start-up / kill / join of up to 16 workers and the manager
 PER_PATH = 0.001       # post-processing allowance per delivered LCD entry (seconds), see notes
 WARN_MARK = "WARNING: LCD analysis timed out"
